@@ -187,8 +187,12 @@ def t2_raw(ctx, state, text: str, t1) -> dict:
         "labelMap": code(sorted(build_label_map(state).items())),
         "_q": _flat(q), "_hyb": _flat(cfg_t2.get("hybrid", {}) or {}),
         "_gel": code(sorted((str(k), str(v)) for k, v in ((state.get("graph") or {}).get("edges") or {}).items())),
-        "rest": code([cfg_t2.get("hybrid", {}), {k: v for k, v in q.items()},
-                      sorted((str(k), str(v)) for k, v in ((state.get("graph") or {}).get("edges") or {}).items())]),
+        "rest": 0,       # ctx.enc and the contents of an aliasing map file: constant within a history
+        "tok": code(str(id(idx))) if idx is not None else 0,
+        "hybrid": (code([_flat(cfg_t2.get("hybrid", {}) or {}),
+                         sorted((str(k), str(v)) for k, v in ((state.get("graph") or {}).get("edges") or {}).items())])
+                   if bool((cfg_t2.get("hybrid", {}) or {}).get("enabled", False)) else 0),
+        "_hybrid_on": bool((cfg_t2.get("hybrid", {}) or {}).get("enabled", False)),
     }
 
 
@@ -457,9 +461,22 @@ def run_history(scratch: Path, case: dict, caches_on: bool, key_log: Optional[li
                 w.spec["now"] = op.get("now", "2025-09-01T00:00:00Z")
                 cur.clear()
                 ver_before = w.state.get("version_etag")
+                _idx0 = w.state.get("mem_index")
+                _t2c = w.cfg_plain.get("t2") or {}
+                _hyb_on = bool((_t2c.get("hybrid") or {}).get("enabled", False))
+                turn_ctx = {
+                    "agent": repr(w.agent), "now": str(w.spec["now"]),
+                    "config": code([_t2c, w.cfg_plain.get("perf"), w.cfg_plain.get("k_surface")]),
+                    "graphs": [w.store.version_etag("g:surface")] if w.store is not None else [],
+                    "indexVer": int(_idx0.index_version()) if _idx0 is not None else None,
+                    "gel": code(sorted((str(k), str(v)) for k, v in ((w.state.get("graph") or {}).get("edges") or {}).items()))
+                    if _hyb_on else 0,
+                }
                 run = TR.run_turn(w, op["text"], turn_id=turn_no)
                 sb = getattr(getattr(w, "last_ctx", None), "slice_budgets", None) or {}
+                turn_ctx["t1"] = sorted(str(d.get("id")) for d in ((cur.get("t1") or {}).get("deltas") or []))
                 for xt in cur.get("xturn", []):
+                    xt["ctx"] = turn_ctx
                     xt["raw"] = {"version": None if ver_before is None else cps(str(ver_before)), "text": cps(str(op["text"])),
                                  "sliceK": code("t2_k=" + repr(sb.get("t2_k"))) if sb.get("t2_k") is not None else None,
                                  "_sliceK": ("t2_k=" + repr(sb.get("t2_k"))) if sb.get("t2_k") is not None else None}
